@@ -1,11 +1,48 @@
 # Source of MANIFEST.json (see gen_manifest.py).
-ASSUME = "Trusted: go/types, go/ssa, x/tools call graphs, the analyser's own models; the clause decided is a necessary condition of the property, not the behaviour itself."
-NOT_YET = "no static check built yet for this property in this tree (see DESIGN.md §5 for the planned rule); listed as not claimed rather than claimed without a check"
+ASSUME = ("Trusted: go/packages + go/types of the default toolchain, the analyser's lexical-dominance (FactsAt) and provenance models, "
+          "its frozen tables of writer/normaliser/parser functions; dependencies (protobuf, goyang, encoding/json, regexp) are not analysed. "
+          "The clause decided is a structural necessary condition of the property, never the behaviour itself.")
+NOT_YET = "no static check built yet for this property in this tree (DESIGN.md §5 names the planned rule); not claimed rather than claimed without a check"
 
-CHECKS["C01"] = ("sibling type-table agreement (AST + go/types table extraction)",
-    "Decides that the generator's YANG→Go type map, the JSON decoder's type maps/assertions, the encoder's wide-number stringification and the leaf-list element tables agree for every YANG kind; a disagreement is a kind whose every value fails the JSON round trip. Behavioural round-trip equality is not decided.", ASSUME)
+def _c(tech, text):
+    return (tech, text + " Level 'other': a static decision of named structural clauses over every path of the code inspected; what is not decided is listed in the evidence file.", ASSUME)
 
-for _p in ["C02","C03","C04","C05","C06","C07","C08","C09","C11","C12","C13","C14","C15","C16","C17","C18","C19","C20","C21","C22","C24","C25","C26","C27","C28","C29","C30","C31","C32","C33","C34"]:
+CHECKS["C01"] = _c("sibling type-table agreement (AST + go/types table extraction)",
+    "Decides that the generator's YANG→Go type map, the JSON decoder's type maps and per-kind assertions, the encoder's wide-number stringification and the leaf-list element tables agree for every YANG kind; a disagreement is a kind whose every value fails the JSON round trip.")
+CHECKS["C02"] = _c("type-table agreement + sign-conversion / wildcard-guard lints",
+    "Decides that the gNMI wrapper produced per YANG kind is one the decoder accepts, every key kind has a string form and both parsers, no sign-changing integer conversion formats a key, and '*' is a wildcard only under GetNode's option.")
+CHECKS["C03"] = _c("lexical guard analysis of ygot.diff + append-ownership lint",
+    "Decides the guards of diff (delete ⇔ absent in modified; update ⇔ !reflect.DeepEqual; additions ⇔ absent in original ∧ no IgnoreAdditions), PathToString-keyed leaf maps, cloned parent paths, and that no diff code appends onto a slice it does not own.")
+CHECKS["C04"] = _c("provenance analysis of destination sinks in the copy family",
+    "Decides that every value written into a DeepCopy/Merge destination is fresh, the destination's own, or a source value proved non-reference by a dominating guard; deepCopy copies into a fresh root; MergeStructs merges into the deep copy.")
+CHECKS["C05"] = _c("copy-family provenance + option-forwarding lint",
+    "Decides that merge options reach every recursive copy call, that MergeStructs deep-copies a and never uses an input as destination, and the copy-family sink discipline.")
+CHECKS["C06"] = _c("abstract evaluation of isInRange over 13 orderings + unit (byte/rune) and sign-conversion lints",
+    "Decides that isInRange is the closed interval under every weak ordering of (val,min,max), isInRanges is ∃ with empty⇒true, lengths are counted in the RFC's units, every pattern is checked without early success, and no byte/rune or sign confusion exists in the validators and the pattern sanitizer.")
+CHECKS["C07"] = _c("static-call reachability of checkers from Validate + silent-skip lint",
+    "Decides that each checker the property names is statically reachable from Validate through its dispatcher arm and that no validator loop silently skips an iteration; three unreachable checks are recorded as known findings.")
+CHECKS["C08"] = _c("partial evaluation of the rune state machines against the encoder's escape set",
+    "Decides that every rune the decoders interpret inside a key value is escaped by the encoder, that the splitter tracks escapes inside keys, that no non-injective normaliser is applied, and that keys are formatted sorted; one unescaped rune ('\\\\') is a recorded known finding.")
+CHECKS["C09"] = _c("early-return discipline in relation folds (AST) + wildcard operand tracing",
+    "Decides that only the absorbing relation is returned from inside the comparison loops, that no map-range in util/gnmi.go returns two different results, and that '*' is compared on the sides that may carry it.")
+CHECKS["C11"] = _c("write-gating by flags, provenance of reflect writes, shared-parameter store lint, append-ownership lint (AST + go/types, static call closure)",
+    "Decides absence of input writes in ygot's own code reachable from the listed APIs: retrieveNode writes gated by flags GetNode never sets, reflect mutators only on fresh values, no store through shared-input parameters, no append onto unowned slices, gnmidiff mutates only fresh roots.")
+CHECKS["C12"] = _c("sibling rule on recursive descents + write gating + wildcard guard (lexical dominance)",
+    "Decides that every descent that can run under delete is followed by an emptiness test and removal, that all removals are gated by args.delete, and that '*' is literal for DeleteNode.")
+CHECKS["C13"] = _c("statement-order and loop-shape analysis of ytypes/gnmi.go",
+    "Decides the phase order delete ≺ replace ≺ update, per-replace delete-then-write, in-order iteration with the prefix joined, that no notification/path is skipped, and the atomic prefix delete.")
+CHECKS["C14"] = _c("flag monotonicity + guard analysis of pruneBranchesInternal",
+    "Decides that the result flag is monotone, every Set writes a zero value into an empty struct-pointer/ordered-map field, ordered maps are recognised before dereference, and leaf fields are compared with their zero value.")
+CHECKS["C16"] = _c("type-table agreement for key kinds + sign-conversion / wildcard-guard lints",
+    "Decides that every supported key kind has a string form and both parsers, that binary keys are rejected by the generator, that no sign-changing conversion formats a key and that '*' is literal outside GetNode's wildcard option.")
+CHECKS["C18"] = _c("float→int precondition rule, per-arm must-use of range-checking parsers, parse-error discipline",
+    "Decides that float→integer conversions are preceded by a sound integrality and range test, that integer TypedValues reach leaves only through StringToType, that every parse error is returned, and that kind tests precede both dispatches.")
+CHECKS["C19"] = _c("format-call lint + per-arm must-call + module-forwarding rule in ygot/render.go",
+    "Decides float formatting ('f',-1,64), the encoder/decoder agreement on stringified kinds, base64/[null]/enum-name arms under RFC7951, the module-prefix clearing rule and forwarding of the parent module through recursive JSON calls.")
+CHECKS["C21"] = _c("global-write, lockset, shared-parameter store and append-ownership lints",
+    "Decides absence of unsynchronised shared writes in ygot's own code: globals only under never-written debug flags, regexp cache maps under their paired mutex, no stores through shared inputs, no appends onto unowned slices, gated retrieveNode writes.")
+
+for _p in ["C15","C17","C20","C22","C24","C25","C26","C27","C28","C29","C30","C31","C32","C33","C34"]:
     NA[_p] = NOT_YET
 NA["C10"] = "quantifies over runtime trees, paths and payloads; its structural clauses (key and value tables) are decided under C16/C18 and the frame clause has no static handle here (DESIGN.md §7)"
 NA["C23"] = "classification of runtime leaves after single-leaf edits; no clause visible in code shape beyond those claimed under C22 (DESIGN.md §7)"
